@@ -73,6 +73,90 @@ def buf_exhaustive(depth, caps, small=False):
                 yield start + list(seq) + ["c.buf.tell", "c.buf.data"]
 
 
+def buf_position_grid(caps=range(1, 10), small=True):
+    """every method at every position 0..cap -- including pos == end -- of a buffer created with
+    `data=` (the heap block then has exactly `cap` bytes, so one byte past it is a red zone for
+    AddressSanitizer; a capacity-0 buffer allocates 1 byte and hides such reads).  The first byte at
+    each position takes all four varint length prefixes."""
+    for cap in caps:
+        alpha = [o for o in buf_alphabet(cap, small) if not o.startswith("c.buf.seek")]
+        for top in (0x00, 0x40, 0x80, 0xC0):
+            data = hx(bytes(top | (i + 1) for i in range(cap)))
+            for p in range(cap + 1):
+                for op in alpha:
+                    yield [f"c.buf.new none {data}", f"c.buf.seek {p}", op]
+
+
+def failed_theorems(ctx):
+    """names of the per-function theorems the failing `lake build AQ.Props.C04` complained about"""
+    import re
+    names = set()
+    path = lean.module_path("AQ.Props.C04")
+    src = open(path).read().split("\n")
+    for b in ctx.broken:
+        for m in re.finditer(r"error: \S*Props/C04\.lean:(\d+):", b.get("log", "") if b.get("kind") == "broken-theorem" else ""):
+            for ln in range(min(int(m.group(1)), len(src)) - 1, -1, -1):
+                t = re.match(r"theorem (\w+)", src[ln])
+                if t:
+                    names.add(t.group(1))
+                    break
+    return sorted(names)
+
+
+def sanitizer_candidates(thorough):
+    cand = list(buf_position_grid())
+    cand += list(buf_init_cases())
+    cand += list(buf_exhaustive(1, range(0, 5)))
+    for c in itertools.chain(remove_cases(False), apply_cases(False), aead_cases(False)):
+        cand += split_ops(c, 200 if thorough else 1000000)
+    cand += list(init_cases()) + list(init_cases_asan())
+    if thorough:
+        cand += list(buf_position_grid(range(1, 10), small=False))
+        cand += list(buf_exhaustive(2, [0, 1, 3], small=True))
+        cand += list(buf_random(rng.make("c04-asan"), 3000))
+    return cand
+
+
+class SanitizerSweep:
+    """runs tools/c04_search.py on a candidate list in a background thread (so that in the quick tier
+    it overlaps with `lake build`)"""
+    def __init__(self, cand):
+        import threading
+        self.cand, self.found, self.executed, self.error = cand, [], 0, None
+        self.t = threading.Thread(target=self._run, daemon=True)
+        self.t.start()
+
+    def _run(self):
+        try:
+            from tools import c04_search
+            self.found, self.executed = c04_search.run(self.cand)
+        except Exception as e:   # the search itself failing is not a verdict about the code
+            self.error = repr(e)[:500]
+
+    def join(self):
+        self.t.join()
+        return self.found, self.executed
+
+
+def report_sanitizer(ctx, found, seen):
+    for f in found:
+        key = (f["summary"]["sanitizer"], f["summary"]["function"])
+        if key in seen:
+            continue
+        seen.add(key)
+        case, j = f["case"], f.get("op_index")
+        if j is None:
+            ops = case
+        elif len(case) <= 8:                      # Buffer cases: constructor, seek, the faulting call
+            ops = case[: j + 1]
+        else:                                     # long grids of independent ops: constructor + faulting op
+            ops = ([case[0]] if j > 0 else []) + [case[j]]
+        ctx.witness(f"{f['summary']['sanitizer']} in {f['summary']['function']} ({f['summary']['access']})",
+                    {"ops": ops, "full_case_len": len(case), "report": f["report"][-1500:],
+                     "how": "tools/c04_search.py (clang -fsanitize=address,undefined build, PYTHONMALLOC=malloc)"},
+                    {"sanitizer": f["summary"]["sanitizer"], "function": f["summary"]["function"]})
+
+
 def buf_init_cases():
     for cap in [-I63, -1, 0, 1, 5, I31, 2 ** 62, I63 - 1, I63, "none"]:
         for data in ["none", "-", "0102"]:
@@ -282,8 +366,12 @@ def main(tier):
     else:
         theorem_coverage(ctx, metas)
     ctx.notes["extract_s"] = round(time.time() - t0, 1)
+    # the sanitizer sweep (every Buffer method at every position incl. pos == end of exact-size blocks,
+    # crypto boundary grids) runs in every tier, concurrently with the proof build
+    sweep = SanitizerSweep(sanitizer_candidates(thorough))
     # 2. proofs about the regenerated definitions
     ctx.prove(["AQ.Props.C04"], [])
+    ctx.notes["failed_theorems"] = failed_theorems(ctx)
     ctx.notes["prove_s"] = round(time.time() - t0, 1)
     ctx.cov["trusted_base"] = [
         "Lean 4.33.0 kernel (+ leanchecker in thorough tier); axioms ⊆ {propext, Classical.choice, Quot.sound}",
@@ -298,7 +386,7 @@ def main(tier):
         "result-object allocation (PyBytes_FromStringAndSize, Py_BuildValue, PyLong_*) succeeds",
         "a cipher's default key length is in [16,32] and IV length in [12,16]; EVP_CipherUpdate on the "
         "stream/GCM/single-block-ECB uses here writes exactly inl bytes; GCM final writes nothing",
-        "bytes objects passed as y# have extent len+1 with a trailing NUL (CPython invariant)",
+        "bytes objects passed as y# have extent len and are followed by a NUL (CPython invariant; the NUL only serves C-string reads)",
         "`for` loops of the translated functions run at most 8 iterations (proved: more would be a fault)",
     ]
     root = tree.activate()
@@ -316,6 +404,8 @@ def main(tier):
         else:
             cases += list(buf_exhaustive(3, [2], small=True))
         run_cases(ctx, "buffer-exhaustive", cases, root, fault_cases)
+        cases = list(buf_position_grid(range(1, 10) if thorough else (1, 2, 3, 8, 9)))
+        run_cases(ctx, "buffer-positions", cases, root, fault_cases)
         ctx.sample({"buffer": cases[len(cases) // 2]})
         cases = list(buf_random(r, 3000 if not thorough else 60000))
         run_cases(ctx, "buffer-random", cases, root, fault_cases)
@@ -328,44 +418,31 @@ def main(tier):
         ctx.sample({"crypto": cases[0][:5]})
         ctx.cov["exhaustive"] = True
     ctx.notes["correspond_s"] = round(time.time() - t0, 1)
-    # 4. failing-input search: sanitizer build (always in thorough; otherwise when something broke)
+    # 4. failing-input search: collect the sanitizer sweep; inputs on which the regenerated model
+    #    faulted (or the plain build crashed) are confirmed on the sanitizer build as well
     ctx.notes["model_faults"] = len(fault_cases)
-    if thorough or ctx.broken or fault_cases:
-        from tools import c04_search
-        cand = fault_cases[:200]
-        cand += list(buf_init_cases())
-        cand += list(buf_exhaustive(1, range(0, 5)))
-        for c in itertools.chain(remove_cases(False), apply_cases(False), aead_cases(False)):
-            cand += split_ops(c, 200 if thorough else 1000000)
-        cand += list(init_cases()) + list(init_cases_asan())
-        if thorough:
-            cand += list(buf_exhaustive(2, [0, 1, 3], small=True))
-            cand += list(buf_random(rng.make("c04-asan"), 3000))
-        try:
-            found, executed = c04_search.run(cand)
-        except Exception as e:  # the search itself failing is not a verdict about the code
-            found, executed = [], 0
-            ctx.notes["asan_error"] = repr(e)[:500]
-        ctx.notes["asan_cases"] = executed
-        ctx.notes["asan_reports"] = len(found)
-        seen = set()
-        for f in found:
-            key = (f["summary"]["sanitizer"], f["summary"]["function"])
-            if key in seen:
-                continue
-            seen.add(key)
-            # shrink: the constructor line plus the op during which the sanitizer fired
-            ctx.witness(f"{f['summary']['sanitizer']} in {f['summary']['function']} ({f['summary']['access']})",
-                        {"ops": ([f["case"][0]] if f["op_index"] > 0 else []) + [f["case"][f["op_index"]]]
-                         if "op_index" in f else f["case"],
-                         "full_case_len": len(f["case"]), "report": f["report"][-1500:],
-                         "how": "tools/c04_search.py (clang -fsanitize=address,undefined build)"},
-                        {"sanitizer": f["summary"]["sanitizer"], "function": f["summary"]["function"]})
+    ctx.notes["model_fault_ops"] = sorted({c[-1].split()[0] for c in fault_cases})
+    seen = set()
+    found, executed = sweep.join()
+    if sweep.error:
+        ctx.notes["asan_error"] = sweep.error
+    report_sanitizer(ctx, found, seen)
+    extra = [c for c in fault_cases[:300] if c not in sweep.cand]
+    if extra:
+        second = SanitizerSweep(extra)
+        f2, e2 = second.join()
+        if second.error:
+            ctx.notes["asan_error"] = second.error
+        report_sanitizer(ctx, f2, seen)
+        found, executed = found + f2, executed + e2
+    ctx.notes["asan_cases"] = executed
+    ctx.notes["asan_reports"] = len(found)
     ctx.notes["total_s"] = round(time.time() - t0, 1)
     ctx.cov["rule"] = (
         "Buffer: every sequence of 2 methods (3 over a reduced alphabet) from the full method alphabet with boundary "
         "integer arguments (-1,0,1,cap-1,cap,cap+1,2^31,2^63-1,-2^63,2^63) on capacities 0..4, from both a "
-        "capacity-created and a data-created buffer, + constructor boundary cases + random sequences; "
+        "capacity-created and a data-created buffer, + every method at every position 0..cap (incl. pos == end) of "
+        "data-created buffers of 1..9 bytes with all four varint prefixes, + constructor boundary cases + random sequences; "
         "HeaderProtection.remove: all (packet_len,pn_offset) <= 40 and packet_len 1480..1520 x boundary offsets "
         "(aes-128-ecb and chacha20); apply: all (header_len<=24, first byte, payload_len<=24) + sizes around 1500; "
         "AEAD encrypt/decrypt: data_len 0..40, 1480..1520 x associated length x packet number. "
